@@ -219,6 +219,14 @@ def extra_C14(ctx):
             for rep in range(2):
                 scs = ",".join(H(1 + r.below(L - 1)) for _ in range(n)) or "-"
                 lines.append("zero.heap.batch_invert %s -" % scs); meta.append(("heap", "batch_invert", n))
+            # ... and with one input equal to ZERO (outside the documented precondition, but the release build returns normally:
+            # whatever path it takes must still wipe the scratch buffer holding the running products of the other secrets)
+            if n >= 2:
+                for pos in sorted({n - 1, n // 2}):
+                    for rep in range(2):
+                        xs = [H(1 + r.below(L - 1)) for _ in range(n)]
+                        xs[pos] = H(0)
+                        lines.append("zero.heap.batch_invert %s -" % ",".join(xs)); meta.append(("heap", "batch_invert_zero_at_%d" % pos, n))
             # the PUBLIC multiscalar API (owned and borrowed iterators, Edwards and Ristretto): same points, different scalars
             for rep in range(2):
                 scs = ",".join(H(r.below(L)) for _ in range(n)) or "-"
